@@ -252,8 +252,8 @@ func iatTwinFile(r *gen.Rand, maxBatches, maxEntries int) (*ach.File, error) {
 	return f, f.Create()
 }
 
-// odfiTwinFile builds a file of standard forward batches whose headers carry
-// non-ASCII characters and differ in the last digits of the ODFI
+// odfiTwinFile builds a file of standard forward batches whose headers (mostly
+// carrying non-ASCII characters) differ in the last digit of the ODFI
 // identification only (columns 80-87, the last field before the batch number).
 func odfiTwinFile(r *gen.Rand, maxBatches, maxEntries int) (*ach.File, error) {
 	sec := gen.Pick(r, []string{ach.PPD, ach.CCD, ach.WEB, ach.TEL, ach.CTX})
@@ -262,7 +262,8 @@ func odfiTwinFile(r *gen.Rand, maxBatches, maxEntries int) (*ach.File, error) {
 		return nil, err
 	}
 	base := f.Batches[0].GetHeader()
-	base.CompanyName = gen.Pick(r, []string{"M\u00fcller GmbH", "Caf\u00e9 \u00c9lys\u00e9e", "\u00c5\u00c4\u00d6 AB", "Pe\u00f1a e Hijos"})
+	// (one in four keeps an ASCII name: then the headers differ within the first 87 bytes)
+	base.CompanyName = gen.Pick(r, []string{"M\u00fcller GmbH", "Caf\u00e9 \u00c9lys\u00e9e", "\u00c5\u00c4\u00d6 AB", "Pe\u00f1a e Hijos", "Miller Inc"})
 	if err := f.Batches[0].Create(); err != nil {
 		return nil, fmt.Errorf("base re-Create: %w", err)
 	}
@@ -353,7 +354,7 @@ func init() {
 }
 
 func run(t *T) {
-	n := t.Budget(4000)
+	n := t.Budget(6000)
 	for i := 0; i < n; i++ {
 		r := t.R.Fork(uint64(i))
 		var f *ach.File
@@ -371,7 +372,7 @@ func run(t *T) {
 		case k == 1:
 			shape = "category-twins"
 			if r.Chance(1, 4) {
-				shape = "non-ASCII-ODFI-twins"
+				shape = "ODFI-twins"
 				f, err = odfiTwinFile(r, maxB+1, maxE)
 			} else if r.Chance(1, 3) {
 				shape = "category-twins-IAT"
